@@ -48,7 +48,7 @@ module.exports = {
   assumptions: [
     'acorn 8.16 (ES2025) is the independent parser; inputs it rejects are skipped and counted',
     'comments are not compared (C10 covers comment handling)',
-    '`T = T + E` for `T += E` is accepted as identity only for T in {identifier, identifier.name, this.name, identifier[literal|identifier]}; other targets are reported (known finding D5)'
+    '`T = T + E` for `T += E` is accepted as identity only for T in {identifier, identifier.name, this.name, identifier[literal|identifier]}; for other targets the rewriter must emit the split form `(t0 = O)[t1 = K] = (…)`, a duplicated target is a violation'
   ],
   plan (ctx) { return plan(ctx, { quickCorpus: 320, exec: { quickRandom: 2500, quickFormsPerPlacement: 10, thoroughRandom: 30000 } }) },
   minEvaluations (ctx) { return ctx.tier === 'thorough' ? 3000 : 200 },
